@@ -159,6 +159,8 @@ type Obs struct {
 	Resp   *Resp
 	Post   *Dump
 	Skip   string // non-empty: step not checkable (reason)
+	// direct property monitors evaluated by the harness on the observed states (not by the model)
+	Monitor []string
 }
 
 func errResp(err error) *Resp {
